@@ -375,8 +375,8 @@ def v2000_store_kind(flags) -> str:
     if _labels(flags, "@sw:"):
         return "prop"
     cols = [c[1:-1] for c in _labels(flags, "@col")]
-    if cols and all(_re.fullmatch(r"\d+:\d+", c) for c in cols):
-        return "atom"
+    if all(_re.fullmatch(r"\d+:\d+", c) for c in cols):
+        return "atom"       # fixed columns only (or no column at all: a constant chosen by the code)
     return "unknown"
 
 
